@@ -153,7 +153,7 @@ class OracleRO:
 
     def expcone(self, y, x, z):
         """z*exp(x/z) <= y (a constraint)"""
-        return self.le(OAtom('pexp', parr(x).reshape(1), params=parr(z).reshape(1)), parr(y).reshape(1))
+        return self.le(OAtom('pexp', parr(x).reshape(1), params=parr(z).reshape(1)), parr(y).reshape(-1))
 
     def rsocone(self, x, y, z):
         """sum(x**2) <= y*z, y >= 0, z >= 0"""
